@@ -45,6 +45,19 @@ class Schema(MetadataMixin):
     override: bool = False
     child: Optional["Schema"] = None
 
+    def __hash__(self):
+        # used in Annotated, a schema is part of the keys of the caches: examples (a list,
+        # possibly of dicts) must not make it unhashable
+        try:
+            return hash(
+                (self.title, self.description, self.default, self.format)
+                + (self.deprecated, self.media_type, self.encoding, self.constraints)
+                + (self.extra, self.override, self.child)
+                + (None if self.examples is None else tuple(self.examples),)
+            )
+        except TypeError:
+            return hash(id(self))
+
     def __call__(self, tp: T) -> T:
         if is_annotated(tp):
             raise TypeError("Cannot register schema on Annotated type")
